@@ -162,15 +162,16 @@ structure JweRegistry where
 /-- `_check_algorithm(name, registry)` followed by `registry[name]`. -/
 def jweLookup {α} (nameFn : α → String) (table : List α) (recommended : List String)
     (allowed : Option (List String)) (name : JVal) : Except Err α := do
-  match ← nameOf name with
-  | none => throw .unsupportedAlgorithm
-  | some s =>
+  -- `if not isinstance(name, str) or name not in registry: raise UnsupportedAlgorithmError`
+  match name with
+  | .str s =>
     match table.find? (fun a => nameFn a == s) with
     | none => throw .unsupportedAlgorithm
     | some a =>
       match allowedActive allowed with
       | some l => if l.contains s then pure a else throw .unsupportedAlgorithm
       | none => if recommended.contains s then pure a else throw .unsupportedAlgorithm
+  | _ => throw .unsupportedAlgorithm
 
 def JweRegistry.getAlg (r : JweRegistry) (name : JVal) := jweLookup (·.name) r.algs r.recommended r.allowed name
 def JweRegistry.getEnc (r : JweRegistry) (name : JVal) := jweLookup (·.name) r.encs r.recommended r.allowed name
